@@ -2,8 +2,16 @@
 
 
 def classify(case):
-    """no recorded finding: the former class system-hold-until-now is repaired in /repo (commit c2c6542, `fixed:` line in
-    KNOWN_FINDINGS); its witness history stays in the driver as a regression case and a recurrence is a VIOLATION"""
+    """the recorded finding refused-updatemany-drops-holds: a refresh request naming several snaps (UpdateMany) that is
+    refused because one snap has running apps, after another snap of the request had been prepared, drops that snap's
+    hold records. Only the dedicated histories of the `requests` driver are keyed: exactly one refresh request, naming
+    several snaps with a busy one among them, everything else holds and clock ticks. (The former class
+    system-hold-until-now is repaired in /repo, commit c2c6542; a recurrence is a VIOLATION.)"""
+    ops = (case.get("input") or {}).get("ops") or []
+    reqs = [o for o in ops if o.get("k") not in ("hold", "tick")]
+    if len(reqs) == 1 and reqs[0].get("k") == "update" and len(reqs[0].get("snaps") or []) > 1 and reqs[0].get("busy") \
+            and "lr" not in (case.get("input") or {}):
+        return "refused-updatemany-drops-holds"
     return None
 
 
@@ -16,6 +24,10 @@ SPEC = dict(
     drivers=[
         dict(name="holds", kind="test", pkg="./overlord/snapstate", run="TestVerifC15Holds",
              n=dict(quick=120, thorough=6000), timeout=dict(quick=300, thorough=1500),
+             ev=dict(requires=["V.models.Holds"], case_type="Holds.case",
+                     mismatch="Holds.mismatch", monitor="Holds.monitor_fail")),
+        dict(name="requests", kind="test", pkg="./overlord/snapstate", run="TestSnapManager", gocheck="verifC15Suite",
+             n=dict(quick=40, thorough=1500), timeout=dict(quick=300, thorough=1500),
              ev=dict(requires=["V.models.Holds"], case_type="Holds.case",
                      mismatch="Holds.mismatch", monitor="Holds.monitor_fail")),
     ],
